@@ -4,6 +4,7 @@ mod engine;
 mod gadgets;
 mod jsoncaps;
 mod leaf;
+mod leafapi;
 mod policy;
 mod pool;
 mod publish;
@@ -40,6 +41,8 @@ fn main() -> Result<()> {
         "leaf-replay" => leaf::replay(&args[2], &args[3], seed(), args[4].parse()?),
         "leaf-record" => leaf::record(&args[2], args[3].parse()?, seed()),
         "leaf-selftest" => leaf::selftest(),
+        "leafapi-replay" => leafapi::api_replay(&args[2], &args[3], seed(), args[4].parse()?),
+        "merkle-replay" => leafapi::merkle_replay(&args[2], &args[3], seed()),
         _ => Err(anyhow!("unknown subcommand {cmd}")),
     }
 }
